@@ -955,7 +955,7 @@ func Run(c *Case, mk func(*scalibr.ScanConfig), slow time.Duration) string {
 }
 
 // materialise writes the tree into a fresh temporary directory <tmp>/root (regular files of the given size, .gitignore files with their
-// content, symlinks to files of the given size kept OUTSIDE the root, named pipes), then re-orders every node's Kids to the order in which the
+// content, symlinks to files of the given size kept OUTSIDE the root, unix sockets as special files), then re-orders every node's Kids to the order in which the
 // operating system lists the directory (the order ReadDir(1) yields), so that the case line describes the listing the scan will see.
 func materialise(t *Node) (string, error) {
 	base := os.Getenv("TMPDIR")
@@ -1026,7 +1026,9 @@ func materialise(t *Node) (string, error) {
 			}
 			return os.Symlink(tg, p)
 		case 's':
-			return syscall.Mkfifo(p, 0o644)
+			// a special file that cannot block whoever opens it by mistake: a unix socket (open fails at once with ENXIO; a named pipe would
+			// block the opener until a writer appears)
+			return syscall.Mknod(p, syscall.S_IFSOCK|0o644, 0)
 		}
 		return nil
 	}
